@@ -1,7 +1,7 @@
 \* exhaustive over the covering design of strength 2 of every entry point, every guard in place
 SPECIFICATION Spec
 CONSTANTS
-  EPs = {"station.ingest", "station.wrap", "transport.params", "regproc", "api", "dnsreg", "responder", "msgformat", "rdatatxt"}
+  EPs = {"station.ingest", "station.wrap", "transport.params", "dtls.connect", "regproc", "api", "dnsreg", "responder", "msgformat", "rdatatxt"}
   Strength = 2
   Thin = FALSE
   MissingGuards = {}
